@@ -156,6 +156,7 @@ func init() {
 			rn := stride.Run(core.Config{Tags: "noasm"}, core.Pkgs("./internal/asm/f64", "./internal/asm/f32", "./internal/asm/c128", "./internal/asm/c64"))
 			rn.Floor("index_sites", 100)
 			res.Merge(rn)
+			res.Merge(flagx.RunLenValue(def, core.Pkgs("./blas/gonum")))
 			sb := stride.RunStepBound(def, core.Pkgs(blasPkgs...))
 			sb.Floor("loops_stepping_by_an_increment", 5)
 			res.Merge(sb)
@@ -240,6 +241,7 @@ func lapackProp(self, other, what string) *property {
 			res.Merge(stride.RunArgmaxBase(def, sc))
 			res.Merge(loopidx.RunStaleFlag(def, sc))
 			res.Merge(flagx.RunSentinel(def, sc))
+			res.Merge(flagx.RunLenValue(def, sc))
 			o := lapackArgs
 			a := args.Run(def, core.Scope{Patterns: []string{"./lapack/gonum"}, Files: sc.Files}, o)
 			a.Floor("entry_points", 50)
@@ -330,6 +332,9 @@ func init() {
 			lc := flagx.RunLdCols(def, core.Pkgs("./lapack/gonum", "./blas/gonum"))
 			lc.Floor("matrix_length_checks", 200)
 			res.Merge(lc)
+			lv := flagx.RunLenValue(def, core.Pkgs("./lapack/gonum", "./blas/gonum"))
+			lv.Floor("lengths_of_slice_parameters", 400)
+			res.Merge(lv)
 			wq := flagx.RunWorkQuery(def, core.Pkgs("./lapack/gonum"))
 			wq.Floor("work_length_checks_in_query_routines", 20)
 			res.Merge(wq)
@@ -951,6 +956,8 @@ func dump(argv []string) {
 		res = settingsx.RunCallbackCopy(def, core.Pkgs(argv[1:]...))
 	case "useempty":
 		res = zeroed.RunUseEmpty(def)
+	case "lenvalue":
+		res = flagx.RunLenValue(def, core.Pkgs(argv[1:]...))
 	case "workquery":
 		res = flagx.RunWorkQuery(def, core.Pkgs(argv[1:]...))
 	case "betascale":
